@@ -285,6 +285,30 @@ def _indexed_row_test(fn):
     return "decide (i %s rows)" % found[0]
 
 
+def _default_stop(fn, owner):
+    """the default of the `stop_rule` parameter: SliceMode.<member>"""
+    args = fn.args.args
+    names = [a.arg for a in args]
+    if "stop_rule" not in names:
+        raise ExtractError("%s.%s has no stop_rule parameter" % (owner, fn.name))
+    k = names.index("stop_rule") - (len(args) - len(fn.args.defaults))
+    if k < 0:
+        raise ExtractError("%s.%s: stop_rule has no default" % (owner, fn.name))
+    m = _slicemode(fn.args.defaults[k], "the default stop rule of %s.%s" % (owner, fn.name))
+    if m not in ("Exclusive", "Inclusive"):
+        raise ExtractError("%s.%s: unknown default stop rule %s" % (owner, fn.name, m))
+    return ("%s.%s(%s)" % (owner, fn.name, ", ".join(n for n in names if n != "self")), m)
+
+
+def _wrapper(fn, owner):
+    """a deprecated wrapper: (signature, the call it returns)"""
+    rets = [n for n in ast.walk(fn) if isinstance(n, ast.Return)]
+    if len(rets) != 1 or not isinstance(rets[0].value, ast.Call):
+        raise ExtractError("%s.%s does not return one call" % (owner, fn.name))
+    names = [a.arg for a in fn.args.args if a.arg != "self"]
+    return ("%s.%s(%s)" % (owner, fn.name, ", ".join(names)), ast.unparse(rets[0].value))
+
+
 def _table(name, rows):
     return "def %s : List (String × String) :=\n  [%s]" % (
         name, ",\n   ".join("(%s, %s)" % (lean_str(a), lean_str(b)) for a, b in rows))
@@ -298,6 +322,12 @@ def read(repo):
             "inData": _slices_in_data(_fn(base, "_slices_in_data")),
             "scale": _scale_position(_fn(base, "_scale_position")),
             "rowTest": _indexed_row_test(_fn(mtag, "feature_data")),
+            "defaults": [_default_stop(_fn(tag, "tagged_data"), "Tag"), _default_stop(_fn(tag, "feature_data"), "Tag"),
+                         _default_stop(_fn(mtag, "tagged_data"), "MultiTag"),
+                         _default_stop(_fn(mtag, "feature_data"), "MultiTag")],
+            "wrappers": [_wrapper(_fn(tag, "retrieve_data"), "Tag"), _wrapper(_fn(tag, "retrieve_feature_data"), "Tag"),
+                         _wrapper(_fn(mtag, "retrieve_data"), "MultiTag"),
+                         _wrapper(_fn(mtag, "retrieve_feature_data"), "MultiTag")],
             "tables": [
                 ("guardsCalcDataSlices", guards(_fn(base, "_calc_data_slices"))),
                 ("guardsSlicesInData", guards(_fn(base, "_slices_in_data"))),
@@ -342,6 +372,10 @@ def render(info):
          "/-! guard tables: (test as written, action) of every `if` / `except` in source order -/"]
     for name, rows in info["tables"]:
         L.append(_table(name, rows))
+    L += ["", "/-- the public methods with their parameters, and the default of `stop_rule` (a `SliceMode` member) -/",
+          _table("defaultStopRules", info["defaults"]),
+          "/-- the deprecated wrappers: signature and the call they return -/",
+          _table("retrieveWrappers", info["wrappers"])]
     L += ["", "end Nix.Tagging.Gen", ""]
     return "\n".join(L)
 
